@@ -17,7 +17,7 @@ import (
 
 func init() {
 	register(&Property{ID: "C18", Run: runC18,
-		Explanation: "Static decision of the constant-structure clauses of C18. Closed-form eigen systems (JC, K2P): the literal eigenvector matrices satisfy R·L = I in exact rational arithmetic (so P(0) = I), the first eigenvalue is 0 with left eigenvector the uniform distribution and right eigenvector 1, and for JC R·diag(λ)·L is the textbook rate matrix scaled to one substitution per unit time; F84: eigenvalue 0 with left eigenvector (πA,πC,πG,πT) and right eigenvector 1. Rate-matrix literals (F81, TN93, GTR) as polynomials in the parameters: every row sums to zero (generator: rows of P(t) sum to 1), π_i·Q_ij = π_j·Q_ji for all pairs (detailed balance), the normaliser is -Σ π_i·Q_ii (one expected substitution per unit time). Protein models (7): the 190 sub-diagonal exchangeabilities are each assigned exactly once and are non-negative, the symmetrisation loop copies m[i][j] to m[j][i], the 20 frequencies are each assigned once and sum to 1 within 1e-5, the dispatcher maps each model code to its own table; InitModel uses the frequencies in force after the user override everywhere. P(t) assembly: Σ_k R[i][k]·e^{λ_k t}·L[k][j] with the exponential indexed by the eigenvector column, floored at DBL_MIN, written only into matrices owned by the Pij object; Analytical() is true exactly for the models that implement Pij. Not decided: stochasticity, the semigroup law, convergence and agreement of analytical and eigen-based values for numerical parameter values."})
+		Explanation: "Static decision of the constant-structure clauses of C18. Closed-form eigen systems (JC, K2P): the literal eigenvector matrices satisfy R·L = I in exact rational arithmetic (so P(0) = I), the first eigenvalue is 0 with left eigenvector the uniform distribution and right eigenvector 1, for JC R·diag(λ)·L is the textbook rate matrix scaled to one substitution per unit time, and for K2P R·diag(λ)·L, with λ read as rational functions of kappa, is the Kimura generator (transversion 1/(κ+2), transition κ/(κ+2), diagonal -1) for every kappa; F84: eigenvalue 0 with left eigenvector (πA,πC,πG,πT) and right eigenvector 1. Rate-matrix literals (F81, TN93, GTR) as polynomials in the parameters: every row sums to zero (generator: rows of P(t) sum to 1), π_i·Q_ij = π_j·Q_ji for all pairs (detailed balance), the normaliser is -Σ π_i·Q_ii (one expected substitution per unit time). Protein models (7): the 190 sub-diagonal exchangeabilities are each assigned exactly once and are non-negative, the symmetrisation loop copies m[i][j] to m[j][i], the 20 frequencies are each assigned once and sum to 1 within 1e-5, the dispatcher maps each model code to its own table; InitModel uses the frequencies in force after the user override everywhere. P(t) assembly: Σ_k R[i][k]·e^{λ_k t}·L[k][j] with the exponential indexed by the eigenvector column, floored at DBL_MIN, written only into matrices owned by the Pij object; Analytical() is true exactly for the models that implement Pij. Not decided: stochasticity, the semigroup law, convergence and agreement of analytical and eigen-based values for numerical parameter values."})
 }
 
 func runC18(c *Ctx) {
